@@ -229,7 +229,7 @@ class PackifierPart(Part):
            Return offset into raw of unparsed portion
            Base method to be overridden in subclass
         """
-        if (not raw) or (not self.verifySize(raw)):
+        if (raw is None) or (not self.verifySize(raw)):
             raise ValueError("Parse Packifier: Not enough raw data for packifier. "
                              "Need {0} bytes, got {1} bytes.".format(self.size,
                                                                      len(raw)))
